@@ -154,6 +154,12 @@ pub fn multi_ops() -> Vec<Op> {
   use Op::*;
   vec![Merge, Concat, Zip, CombineLatest, Amb, TakeUntil, SkipUntil, Sample, SequenceEqual]
 }
+/// plus the operators that have no functional reference (contract / unsubscribe / teardown / release only)
+pub fn multi_ops_all() -> Vec<Op> {
+  let mut v = multi_ops();
+  v.push(Op::SwitchOnNext);
+  v
+}
 
 // ------------------------------------------------------------------ worlds
 
@@ -468,7 +474,7 @@ pub fn eval_case(prop: &str, case: &Case, oracles: &[Oracle], st: &mut Stats, de
       }
       Oracle::Unsub => {
         for (ai, a) in case.acts.iter().enumerate() {
-          if let Act::Unsub(root) = a {
+          if let Act::Unsub(root) | Act::UsingDrop(root) = a {
             let base = rec_id(*root);
             if let Some(e) = real.events.iter().find(|e| e.step > ai && e.rec >= base && e.rec < base + 100) {
               st.add_finding(
@@ -488,7 +494,7 @@ pub fn eval_case(prop: &str, case: &Case, oracles: &[Oracle], st: &mut Stats, de
         for root in 0..n_roots {
           let mut ended = false;
           for (step, a) in case.acts.iter().enumerate() {
-            if *a == Act::Unsub(root) {
+            if *a == Act::Unsub(root) || *a == Act::UsingDrop(root) {
               ended = true;
             }
             if real.events.iter().any(|e| e.step == step && e.rec == rec_id(root) && e.ev.is_terminal()) {
